@@ -229,10 +229,12 @@ type TreeCase struct {
 	NonTriv  bool
 }
 
-var keyPool = []string{"2nd", "10th", "404s", "5xx_errors", "3rd.party", "1st", "src", "line", ".", "#", ".#", "@", "key", "val_1", "a.b", "a-b", "K9", "héllo", "ключ", "名", "nilkey", "tab", "f", "coalesce", "x"}
+var keyPool = []string{"2nd", "10th", "404s", "5xx_errors", "3rd.party", "1st", "src", "line", ".", "#", ".#", "@", "key", "val_1", "a.b", "a-b", "K9", "héllo", "ключ", "名", "nilkey", "tab", "f", "coalesce", "x", "voilà", "Ålesund", "寅", "tà_b"}
 
 // literal alphabets for arguments
-var wordAlphabet = []rune{'a', 'b', 'n', 't', 'r', 'Z', '0', '1', '5', '-', '_', '.', ',', ':', '[', ']', '=', '+', '/', '\'', 'é', '世', '😀', '@', '#', '$', '!', '<', '>'}
+var wordAlphabet = []rune{'a', 'b', 'n', 't', 'r', 'Z', '0', '1', '5', '-', '_', '.', ',', ':', '[', ']', '=', '+', '/', '\'', 'é', '世', '😀', '@', '#', '$', '!', '<', '>',
+	// runes whose UTF-8 encoding holds a byte that is white space when read as Latin-1 (0x85, 0xA0)
+	'à', 'Å', '≠', '寅'}
 var specAlphabet = []rune{'\\', '{', '}', '"', '\\', '{', '}', '"', 'a', 'n', '1', '-', 'é'}
 var blankAlphabet = []rune{' ', ' ', ' ', '\t', '\n', '\r', '\u00a0', '\u2003', 'a', 'b', 'n', '1', ',', 0, '\v'}
 var blankSpecAlphabet = []rune{' ', ' ', '\t', '\n', '\\', '{', '}', '"', 'a', 'n'}
